@@ -306,6 +306,64 @@ def desugar_loops(data):
     return n
 
 
+def desugar_filter_loops(data):
+    """In place: `for x in it.filter(|p| C) { B }` becomes `for x in it { if !({ let p = &x; C }) { continue; } B }` (just `!(C)` when
+    the closure's parameter has the loop variable's name), so that a loop that passes over some elements reads the same whether the
+    test is written as an adaptor or as a `continue`; and a `let v = <iterator chain>;` used only as the iterable of the `for` that
+    follows it is read in the loop header.  Returns the number of loops rewritten."""
+    n = 0
+    stack = [data]
+    while stack:
+        x = stack.pop()
+        if isinstance(x, list):
+            stack.extend(v for v in x if isinstance(v, (dict, list)))
+            continue
+        if not isinstance(x, dict):
+            continue
+        if x.get("k") == "Block" and x.get("stmts"):
+            st = x["stmts"]
+            i = 0
+            while i + 1 < len(st):
+                a, b = st[i], st[i + 1]
+                lp = b.get("expr") if b.get("k") == "ExprStmt" else None
+                if a.get("k") == "Local" and a.get("else") is None and a.get("init") is not None and a["pat"].get("k") == "PIdent" and not a["pat"].get("mut") \
+                        and isinstance(lp, dict) and lp.get("k") == "ForLoop" and lp["iter"].get("k") == "Path" and lp["iter"]["path"] == a["pat"]["name"] \
+                        and a["init"].get("k") == "MethodCall":
+                    nm = a["pat"]["name"]
+                    uses = sum(1 for s_ in st[i + 1:] for y in A.walk(s_) if y.get("k") == "Path" and y.get("path") == nm)
+                    if uses == 1:
+                        lp["iter"] = a["init"]
+                        del st[i]
+                        continue
+                i += 1
+        if x.get("k") == "ForLoop" and x["iter"].get("k") == "MethodCall" and x["iter"]["method"] == "filter" and len(x["iter"]["args"]) == 1 \
+                and x["iter"]["args"][0].get("k") == "Closure" and len(x["iter"]["args"][0].get("params", [])) == 1 and x["pat"].get("k") == "PIdent" \
+                and not _has_return(x["iter"]["args"][0]["body"]):
+            clo = x["iter"]["args"][0]
+            cp = clo["params"][0]
+            cpat = cp.get("pat", cp) if isinstance(cp, dict) else None
+            while isinstance(cpat, dict) and cpat.get("k") in ("PType", "PRef"):
+                cpat = cpat.get("pat")
+            if isinstance(cpat, dict) and cpat.get("k") == "PIdent":
+                pos = {k: clo[k] for k in ("l", "c", "el", "ec")}
+                cond = clo["body"]
+                if cpat["name"] != x["pat"]["name"]:
+                    bind = {"k": "Local", "pat": cpat, "init": {"k": "Ref", "mut": False, "expr": {"k": "Path", "path": x["pat"]["name"], **pos}, **pos}, "else": None, **pos}
+                    cond = {"k": "Block", "stmts": [bind, {"k": "ExprStmt", "expr": cond, "semi": False, **pos}], **pos}
+                neg = {"k": "Unary", "op": "!", "expr": {"k": "Paren", "expr": cond, **pos}, **pos}
+                cont = {"k": "Block", "stmts": [{"k": "ExprStmt", "expr": {"k": "Continue", "label": None, **pos}, "semi": True, **pos}], **pos}
+                guard = {"k": "ExprStmt", "expr": {"k": "If", "cond": neg, "then": cont, "else": None, **pos}, "semi": False, **pos}
+                x["iter"] = x["iter"]["recv"]
+                body = _as_block(x["body"])
+                body["stmts"].insert(0, guard)
+                x["body"] = body
+                n += 1
+                stack.append(x)
+                continue
+        stack.extend(v for v in x.values() if isinstance(v, (dict, list)))
+    return n
+
+
 # ---- local closures: `let f = |a, b| body; .. f(x, y) ..` read as `{ let a = x; let b = y; body }` at each call ---------------------
 def _clone(x):
     return json.loads(json.dumps(x))
@@ -486,80 +544,248 @@ def expand_self(data):
 
 
 # ---- helpers extracted since the reference tree are read in place ----------------------------------------------------------------------
-def inline_new_helpers(data, known_fns):
-    """A private free function that the reference tree does not have, that is called from exactly one place in the crate, is not
-    recursive and has no `return` inside, is a piece of its caller that was given a name (`extract function`).  Its call is replaced
-    by a block that binds the parameters to the arguments (all at once) and holds the helper's body; for a helper returning
-    `Result`, called as `h(..)?`, whose body ends in `Ok(v)`, the `?` on the call is dropped and the block's value is `v` (the inner
-    `?`s keep propagating, now from the caller).  The helper's own item is dropped from the trees the rules read.  Returns the list
-    of inlined function names (engine M still has them as functions: see cross_check_sm)."""
-    fns = {}     # simple name -> list of (file, items list, index, node)
-    for path, content in data.items():
-        if path.endswith("build.rs"):
-            continue
-        for i, it in enumerate(content.get("items", [])):
-            if it.get("k") == "Fn" and not it.get("cfg_test"):
-                fns.setdefault(it["name"], []).append((path, content["items"], it))
-    module = lambda path: os.path.splitext(os.path.basename(path))[0]
-    cands = {}
-    for name, lst in fns.items():
-        if len(lst) != 1:
-            continue
-        path, items, node = lst[0]
-        if f"{module(path)}::{name}" in known_fns or (node.get("vis") or "").startswith("pub") and "crate" not in (node.get("vis") or ""):
-            continue
-        if node.get("generics") and "<" in node["generics"] and "'" not in node["generics"]:
-            continue  # generic helpers (bounds on closures etc.) are left alone
-        if _has_return(node["body"]) or any(p.get("name") in (None, "self") or (p.get("pat") or {}).get("k") not in ("PIdent",) for p in node["params"]):
-            continue
-        cands[name] = (path, items, node)
-    if not cands:
-        return []
-    # call sites, with parents
-    sites = {n: [] for n in cands}
-    stack = [(data, None, None)]
+def desugar_entry(data):
+    """`match m.entry(k) { Entry::Occupied(o) => A, Entry::Vacant(v) => B }` is `if let Some(o) = m.get(&k) { A } else { B }` with
+    `o.get()` / `o.get_mut()` / `o.into_mut()` read as `o`, and `o.insert(x)` / `v.insert(x)` as `m.insert(k, x)`, `.key()` as `k`:
+    the std entry API spelled as the lookup and the insertion it performs (what the rules know how to read).  Returns the count."""
+    import copy
+    n_done = 0
+    stack = [data]
     while stack:
-        x, par, key = stack.pop()
+        x = stack.pop()
+        if isinstance(x, list):
+            stack.extend(v for v in x if isinstance(v, (dict, list)))
+            continue
+        if not isinstance(x, dict):
+            continue
+        if x.get("k") == "Match" and x["scrut"].get("k") == "MethodCall" and x["scrut"]["method"] == "entry" and len(x["scrut"]["args"]) == 1 and len(x.get("arms", [])) == 2:
+            occ = vac = None
+            for a in x["arms"]:
+                p = a["pat"]
+                if a.get("guard") is None and p.get("k") == "PTupleStruct" and len(p.get("elems", [])) == 1 and p["elems"][0].get("k") in ("PIdent", "PWild"):
+                    last = p["path"].split("::")[-1]
+                    if last == "Occupied":
+                        occ = a
+                    elif last == "Vacant":
+                        vac = a
+            if occ is not None and vac is not None:
+                m, key = x["scrut"]["recv"], x["scrut"]["args"][0]
+                pos = {k: x[k] for k in ("l", "c", "el", "ec")}
+
+                def rewrite(body, var, occupied):
+                    st = [body]
+                    while st:
+                        y = st.pop()
+                        if isinstance(y, list):
+                            st.extend(v for v in y if isinstance(v, (dict, list)))
+                            continue
+                        if not isinstance(y, dict):
+                            continue
+                        if var and y.get("k") == "MethodCall" and y["recv"].get("k") == "Path" and y["recv"]["path"] == var:
+                            yp = {k: y[k] for k in ("l", "c", "el", "ec")}
+                            if y["method"] == "insert" and len(y["args"]) == 1:
+                                val = y["args"][0]
+                                y.clear()
+                                y.update({"k": "MethodCall", "recv": copy.deepcopy(m), "method": "insert", "args": [copy.deepcopy(key), val], "turbofish": None, "ml": yp["l"], "mc": yp["c"], **yp})
+                                st.append(val)
+                                continue
+                            if occupied and y["method"] in ("get", "get_mut", "into_mut") and not y["args"]:
+                                y.clear()
+                                y.update({"k": "Path", "path": var, **yp})
+                                continue
+                            if y["method"] in ("key", "into_key") and not y["args"]:
+                                y.clear()
+                                y.update(copy.deepcopy(key))
+                                continue
+                        st.extend(v for v in y.values() if isinstance(v, (dict, list)))
+                ov = occ["pat"]["elems"][0].get("name") if occ["pat"]["elems"][0].get("k") == "PIdent" else None
+                vv = vac["pat"]["elems"][0].get("name") if vac["pat"]["elems"][0].get("k") == "PIdent" else None
+                rewrite(occ["body"], ov, True)
+                rewrite(vac["body"], vv, False)
+                keyref = key if key.get("k") == "Ref" else {"k": "Ref", "mut": False, "expr": copy.deepcopy(key), **{k: key[k] for k in ("l", "c", "el", "ec")}}
+                lookup = {"k": "MethodCall", "recv": copy.deepcopy(m), "method": "get", "args": [keyref], "turbofish": None, "ml": x["scrut"]["l"], "mc": x["scrut"]["c"], **{k: x["scrut"][k] for k in ("l", "c", "el", "ec")}}
+                pat = {"k": "PTupleStruct", "path": "Some", "elems": [occ["pat"]["elems"][0]], **{k: occ["pat"][k] for k in ("l", "c", "el", "ec")}}
+                new = {"k": "If", "cond": {"k": "Let", "pat": pat, "expr": lookup, **{k: x["scrut"][k] for k in ("l", "c", "el", "ec")}},
+                       "then": _as_block(occ["body"]), "else": _as_block(vac["body"]), **pos}
+                x.clear()
+                x.update(new)
+                n_done += 1
+        stack.extend(v for v in x.values() if isinstance(v, (dict, list)))
+    return n_done
+
+
+def _tries_outside_closures(body):
+    out, stack = [], [body]
+    while stack:
+        x = stack.pop()
         if isinstance(x, dict):
-            if x.get("k") == "Call" and x["func"].get("k") == "Path":
-                nm = x["func"]["path"].split("::")[-1]
-                if nm in sites and x["func"]["path"] in (nm, "self::" + nm, "crate::" + nm, "Self::" + nm):
-                    sites[nm].append((x, par))
-            elif x.get("k") == "Path" and isinstance(x.get("path"), str) and x["path"].split("::")[-1] in sites and not (par is not None and par.get("k") == "Call" and par.get("func") is x):
-                sites[x["path"].split("::")[-1]].append((None, par))  # used as a value (`.map(helper)`): not inlinable
-            for k2, v in x.items():
-                if isinstance(v, (dict, list)):
-                    stack.append((v, x, k2))
+            if x.get("k") == "Closure":
+                continue
+            if x.get("k") == "Try":
+                out.append(x)
+            stack.extend(v for v in x.values() if isinstance(v, (dict, list)))
         elif isinstance(x, list):
-            for v in x:
-                if isinstance(v, (dict, list)):
-                    stack.append((v, par, key))
+            stack.extend(v for v in x if isinstance(v, (dict, list)))
+    return out
+
+
+MAX_INLINE_SITES = 8
+
+
+def inline_new_helpers(data, known_fns):
+    """A private function (free, or an inherent method called as `self.h(..)` / `Self::h(..)` from its own type) that the reference
+    tree does not have, that is not recursive, has no `return` inside and is called from at most MAX_INLINE_SITES places (and never
+    used as a value), is a piece of its callers that was given a name (`extract function`).  Each call is replaced by a copy of the
+    helper's body: a block that first binds the parameters to the arguments (all at once; a parameter whose argument is the
+    variable of the same name needs no binding), or just the body's expression when nothing is left to bind.  `?` inside the
+    helper leaves the HELPER, so such a helper is only read in place when it is called as `h(..)?` and ends in `Ok(v)` / `Some(v)`:
+    the `?` on the call and the wrapper are dropped, the inner `?`s keep propagating, now from the caller.  Helpers that call other
+    new helpers are handled innermost first.  The helper's own item is dropped from the trees the rules read.  Returns the list of
+    inlined function names (engine M still has them as functions: see cross_check_sm)."""
+    import copy
+    module = lambda path: os.path.splitext(os.path.basename(path))[0]
     done = []
-    for name, (path, items, node) in cands.items():
-        ss = sites[name]
-        if len(ss) != 1 or ss[0][0] is None:
-            continue
-        call, parent = ss[0]
-        # not recursive: the single call is outside the helper
-        inside = any(y is call for y in A.walk(node["body"]))
-        if inside or len(call["args"]) != len(node["params"]):
-            continue
-        pos = {k: call[k] for k in ("l", "c", "el", "ec")}
-        pats = [{"k": "PIdent", "name": p["name"], "mut": bool((p.get("pat") or {}).get("mut")), "by_ref": False, "sub": None, **pos} for p in node["params"]]
-        body = node["body"]
-        stmts = []
-        if pats:
-            stmts.append({"k": "Local", "pat": {"k": "PTuple", "elems": pats, **pos}, "init": {"k": "Tuple", "elems": list(call["args"]), **pos}, "else": None, **pos})
-        stmts.append({"k": "ExprStmt", "expr": body, "semi": False, **pos})
-        target = call
-        if parent is not None and parent.get("k") == "Try" and parent.get("expr") is call and body.get("k") == "Block" and body.get("stmts"):
-            tail = body["stmts"][-1]
-            te = tail.get("expr") if tail.get("k") == "ExprStmt" and not tail.get("semi") else None
-            if te is not None and te.get("k") == "Call" and te["func"].get("k") == "Path" and te["func"]["path"] == "Ok" and len(te["args"]) == 1:
-                tail["expr"] = te["args"][0]
-                target = parent
-        target.clear()
-        target.update({"k": "Block", "stmts": stmts, **pos})
-        items.remove(node)
-        done.append(name)
+    for _round in range(4):
+        fns = {}     # simple name -> list of (file, items list, node, self_ty)
+        for path, content in data.items():
+            if path.endswith("build.rs"):
+                continue
+            for it in content.get("items", []):
+                if it.get("cfg_test"):
+                    continue
+                if it.get("k") == "Fn":
+                    fns.setdefault(it["name"], []).append((path, content["items"], it, None))
+                elif it.get("k") == "Impl":
+                    for m in it.get("items", []):
+                        if m.get("k") == "Fn" and not m.get("cfg_test"):
+                            fns.setdefault(m["name"], []).append((path, it["items"], m, it if it.get("trait") is None else False))
+        cands = {}
+        for name, lst in fns.items():
+            if len(lst) != 1:
+                continue
+            path, items, node, imp = lst[0]
+            if imp is False:
+                continue  # trait impl methods are interface, not extracted pieces
+            q = f"{module(path)}::{imp['self_ty']}::{name}" if imp else f"{module(path)}::{name}"
+            vis = node.get("vis") or ""
+            if q in known_fns or (vis.startswith("pub") and "crate" not in vis and "super" not in vis):
+                continue
+            g = node.get("generics") or ""
+            if "Fn" in g or "impl " in " ".join(str(p.get("ty")) for p in node["params"]):
+                continue  # helpers taking closures are left alone
+            if _has_return(node["body"]):
+                continue
+            if any((p.get("name") is None) or (p.get("name") != "self" and (p.get("pat") or {}).get("k") != "PIdent") for p in node["params"]):
+                continue
+            cands[name] = (path, items, node, imp)
+        if not cands:
+            break
+        # call sites, with parents
+        sites = {n: [] for n in cands}
+        owner = {}  # id(call) -> self_ty of the impl the call stands in (None outside impls)
+        stack = [(data, None, None, None)]
+        while stack:
+            x, par, key, ty = stack.pop()
+            if isinstance(x, dict):
+                if x.get("k") == "Impl":
+                    ty = x.get("self_ty")
+                if x.get("k") == "Call" and x["func"].get("k") == "Path":
+                    fp = x["func"]["path"]
+                    nm = fp.split("::")[-1]
+                    if nm in sites:
+                        imp = cands[nm][3]
+                        okp = (nm, "self::" + nm, "crate::" + nm, "super::" + nm) if not imp else ("Self::" + nm, imp["self_ty"] + "::" + nm)
+                        sites[nm].append((x, par, "call") if fp in okp and (not imp or ty == imp["self_ty"] or fp.startswith(imp["self_ty"])) else (None, par, "other"))
+                elif x.get("k") == "MethodCall" and x.get("method") in sites:
+                    nm = x["method"]
+                    imp = cands[nm][3]
+                    if imp and ty == imp["self_ty"] and x["recv"].get("k") == "Path" and x["recv"].get("path") == "self":
+                        sites[nm].append((x, par, "mcall"))
+                    elif imp:
+                        sites[nm].append((None, par, "other"))   # called on something else than `self`: left alone
+                elif x.get("k") == "Path" and isinstance(x.get("path"), str) and x["path"].split("::")[-1] in sites and not (par is not None and par.get("k") == "Call" and par.get("func") is x):
+                    sites[x["path"].split("::")[-1]].append((None, par, "value"))  # used as a value (`.map(helper)`): not inlinable
+                for k2, v in x.items():
+                    if isinstance(v, (dict, list)):
+                        stack.append((v, x, k2, ty))
+            elif isinstance(x, list):
+                for v in x:
+                    if isinstance(v, (dict, list)):
+                        stack.append((v, par, key, ty))
+        progressed = False
+        for name, (path, items, node, imp) in cands.items():
+            ss = sites[name]
+            if not ss or len(ss) > MAX_INLINE_SITES or any(c is None for c, _p, _k in ss):
+                continue
+            body_nodes = {id(y) for y in A.walk(node["body"])}
+            if any(id(c) in body_nodes for c, _p, _k in ss):
+                continue  # recursive
+            # innermost first: a helper that still calls another candidate waits for the next round
+            if any((y.get("k") == "Call" and y["func"].get("k") == "Path" and y["func"]["path"].split("::")[-1] in cands and y["func"]["path"].split("::")[-1] != name)
+                   or (y.get("k") == "MethodCall" and y.get("method") in cands and y.get("method") != name) for y in A.walk(node["body"])):
+                continue
+            params = list(node["params"])
+            has_self = bool(params) and params[0].get("name") == "self"
+            tries = _tries_outside_closures(node["body"])
+            ok = True
+            plans = []
+            for call, parent, kind in ss:
+                args = list(call["args"])
+                if kind == "mcall":
+                    if not has_self:
+                        ok = False
+                        break
+                    ps = params[1:]
+                elif has_self:
+                    # `Self::h(self, ..)`
+                    if not (args and args[0].get("k") == "Path" and args[0].get("path") == "self"):
+                        ok = False
+                        break
+                    ps, args = params[1:], args[1:]
+                else:
+                    ps = params
+                if len(ps) != len(args):
+                    ok = False
+                    break
+                under_try = parent is not None and parent.get("k") == "Try" and parent.get("expr") is call
+                body = node["body"]
+                tail = body["stmts"][-1] if body.get("k") == "Block" and body.get("stmts") else None
+                te = tail.get("expr") if tail is not None and tail.get("k") == "ExprStmt" and not tail.get("semi") else None
+                wrapped = te is not None and te.get("k") == "Call" and te["func"].get("k") == "Path" and te["func"]["path"] in ("Ok", "Some") and len(te["args"]) == 1
+                if tries and not (under_try and wrapped):
+                    ok = False
+                    break
+                plans.append((call, parent, ps, args, under_try and wrapped))
+            if not ok:
+                continue
+            for call, parent, ps, args, unwrap in plans:
+                pos = {k: call[k] for k in ("l", "c", "el", "ec")}
+                body = copy.deepcopy(node["body"])
+                for rank, y in enumerate(sorted(A.walk(body), key=A.pos)):
+                    y["o"] = (call["el"], call["ec"], rank)
+                binds = [(p, a) for p, a in zip(ps, args) if not (a.get("k") == "Path" and a.get("path") == p["name"] and not (p.get("pat") or {}).get("mut"))]
+                stmts = []
+                if binds:
+                    pats = [{"k": "PIdent", "name": p["name"], "mut": bool((p.get("pat") or {}).get("mut")), "by_ref": False, "sub": None, **pos} for p, _a in binds]
+                    if len(binds) == 1:
+                        stmts.append({"k": "Local", "pat": pats[0], "init": binds[0][1], "else": None, **pos})
+                    else:
+                        stmts.append({"k": "Local", "pat": {"k": "PTuple", "elems": pats, **pos}, "init": {"k": "Tuple", "elems": [a for _p, a in binds], **pos}, "else": None, **pos})
+                target = call
+                if unwrap:
+                    tail = body["stmts"][-1]
+                    tail["expr"] = tail["expr"]["args"][0]
+                    target = parent
+                if not stmts and body.get("k") == "Block" and len(body.get("stmts", [])) == 1 and body["stmts"][0].get("k") == "ExprStmt" and not body["stmts"][0].get("semi"):
+                    new = body["stmts"][0]["expr"]
+                else:
+                    stmts.append({"k": "ExprStmt", "expr": body, "semi": False, **pos}) if body.get("k") != "Block" else stmts.extend(body["stmts"])
+                    new = {"k": "Block", "stmts": stmts, **pos}
+                target.clear()
+                target.update(new)
+            items.remove(node)
+            done.append(name)
+            progressed = True
+        if not progressed:
+            break
     return done
